@@ -805,4 +805,49 @@ Definition observe (r : runner) (h : heaps) : obs :=
     (elems (ha h) (r_dirstack r))
     (elems (ha h) (r_params r)).
 
+
+(* ---- pipelines ---------------------------------------------------------------------- *)
+(* BinaryCmd Pipe in Runner.cmd: the left stage runs in r.subshell(true), the LAST
+   stage runs in r itself (sequential view; C32 is about the concurrency) *)
+Definition pipeline (left right : list op) (r : runner) (h : heaps) : state :=
+  let sl := run_ops left (subshell_state true r h) in
+  run_ops right (mkSt r (st_h sl) (st_panic sl)).
+
 End Model.
+
+(* ---- bgProcs and wait ------------------------------------------------------------------ *)
+(* Runner.bgProcs is append-only; the goroutine of job i first writes *bg.exit and
+   then closes bg.done (runner.go: `*bg.exit = r2.exit; close(bg.done)`); `wait gN`
+   receives from done and then reads *bg.exit. *)
+Record job := mkJob { j_exit : N; j_done : bool; j_pc : nat; j_status : N }.
+Inductive event :=
+| ESpawn (status : N)       (* the parent starts a job whose shell will end with status *)
+| EStep (i : nat).          (* the goroutine of job i (0-based) takes its next step *)
+Definition job_step (j : job) : job :=
+  match j_pc j with
+  | 0 => mkJob (j_status j) (j_done j) 1 (j_status j)        (* *bg.exit = r2.exit *)
+  | 1 => mkJob (j_exit j) true 2 (j_status j)                 (* close(bg.done) *)
+  | _ => j
+  end.
+Definition ev_step (js : list job) (e : event) : list job :=
+  match e with
+  | ESpawn s => js ++ [mkJob 0 false 0 s]
+  | EStep i => match nth_error js i with Some j => set_nth js i (job_step j) | None => js end
+  end.
+Definition run_events (evs : list event) (js : list job) : list job := fold_left ev_step evs js.
+Fixpoint spawned (evs : list event) : list N :=
+  match evs with
+  | [] => []
+  | ESpawn s :: t => s :: spawned t
+  | EStep _ :: t => spawned t
+  end.
+(* `wait g<n>` (n is 1-based): None = still blocked on done; Err 1 = "not a child of this shell" *)
+Definition wait_result (js : list job) (n : nat) : option (res N) :=
+  match n with
+  | 0 => Some (Err 1%N)
+  | S i =>
+      match nth_error js i with
+      | None => Some (Err 1%N)
+      | Some j => if j_done j then Some (Ok (j_exit j)) else None
+      end
+  end.
